@@ -1033,6 +1033,41 @@ class Engine:
                 else:
                     outs.append((s, None, None))
             return outs
+        if seq is not None and spec is not None and spec.summary is None:
+            # concrete iterable cut by an invariant: every iteration is verified on its own from the loop-head state
+            for name, fn in spec.inv:
+                self.oblige(st, 'inv-entry:loop%d:%s' % (lid, name), zb(fn(View(st, self))), {'loop': lid})
+            head = st.copy()
+            allowed_locs = self.frame_locs(head, spec.frame)
+            _sw = head.writes
+            head.writes = None
+            self.havoc_frame(head, spec.frame)
+            allowed_locs |= self.frame_locs(head, spec.frame)
+            head.writes = _sw
+            head_locs = set(head.locs) | set(head.initial_locs)
+            for name, fn in spec.inv:
+                head.assume(zb(fn(View(head, self))))
+            outs = []
+            for item in seq:
+                s = head.copy()
+                s.writes = set()
+                self.assign(n.target, item, s)
+                for s2, kind, payload in self.block(n.body, s):
+                    self.check_loop_frame({w for w in (s2.writes or ()) if not w.startswith('$')}, spec.frame, lid,
+                                          allowed_locs, head_locs)
+                    s2.writes = _sw
+                    if kind in (None, 'continue'):
+                        for name, fn in spec.inv:
+                            self.oblige(s2, 'inv-step:loop%d:%s' % (lid, name), zb(fn(View(s2, self))), {'loop': lid})
+                    elif kind == 'break':
+                        outs.append((s2, None, None))
+                    else:
+                        outs.append((s2, kind, payload))
+            if n.orelse:
+                outs.extend(self.block(n.orelse, head))
+            else:
+                outs.append((head, None, None))
+            return outs
         if spec is None:
             raise Unsupported('for-loop #%d (line %d) over a symbolic iterable has no invariant' % (lid, n.lineno))
         if spec.summary is not None:
@@ -1304,6 +1339,11 @@ class Engine:
         return z
 
     def project(self, sl):
+        if isinstance(sl, ast.Constant) and sl.value is Ellipsis:
+            return ast.Slice(lower=None, upper=None, step=None)       # x[...] = v  is  x[:] = v  for 1-D arrays
+        return self.project_rows(sl)
+
+    def project_rows(self, sl):
         """row projection of 2-D history arrays: x[:, j] -> x[j], x[:, None] -> x (one arbitrary device row)"""
         if getattr(self.c, 'row_projection', False) and isinstance(sl, ast.Tuple) and len(sl.elts) == 2 and \
                 isinstance(sl.elts[0], ast.Slice) and sl.elts[0].lower is None and sl.elts[0].upper is None:
@@ -1316,11 +1356,13 @@ class Engine:
             return base          # x[:, None] on a projected scalar
         if isinstance(base, tuple) and len(base) == 2 and base[0] == 'objdict':
             key = self.ev(sl, st)
-            if isinstance(key, str):
-                return self.getattr(base[1], key, st)
             h = self.c.calls.get('__objdict__')
             if h is not None:
-                return h(self, st, [base[1], key], {}, None)
+                r = h(self, st, [base[1], key], {}, None)
+                if r is not NotImplemented:
+                    return r
+            if isinstance(key, str):
+                return self.getattr(base[1], key, st)
             raise Unsupported('__dict__ lookup with symbolic key')
         if isinstance(base, NR) and getattr(self.c, 'row_projection', False):
             return base
@@ -1444,6 +1486,20 @@ class Engine:
                 mask = None
                 if isinstance(iv, tuple) and len(iv) == 2 and iv[0] == 'where-mask':
                     mask = iv[1]
+                elif isinstance(iv, Ref) and isinstance(st.content(iv), ArrC) and st.content(iv).kind == 'int':
+                    # integer fancy-index store of a scalar: every addressed element is set (scatter)
+                    ic = st.content(iv)
+                    x = as_real(value)
+                    k, j = fresh('k', I), fresh('j', I)
+                    hit = z3.Exists([j], z3.And(j >= 0, j < ic.n, z3.ToInt(ic.vals[j]) == k))
+                    vals = z3.Lambda([k], z3.If(hit, x.val, c.vals[k]))
+                    nans = None if (c.nans is None and x.nan is False) else z3.Lambda([k], z3.If(hit, x.nanz(), c.nan_at(k)))
+                    if getattr(self.c, 'check_bounds', True):
+                        self.oblige(st, 'index-in-bounds[%s]' % ast.unparse(sl),
+                                    z3.ForAll([j], z3.Implies(z3.And(j >= 0, j < ic.n), z3.And(
+                                        z3.ToInt(ic.vals[j]) >= 0, z3.ToInt(ic.vals[j]) < c.n))), {'kind': 'IndexError'})
+                    st.set_content(base, ArrC(vals, c.n, nans, kind=c.kind))
+                    return
                 elif isinstance(iv, Ref) and isinstance(st.content(iv), ArrC):
                     mask = iv        # boolean-mask indexing (masks are 0/1 arrays here)
                 if mask is not None:
@@ -1873,6 +1929,11 @@ class Engine:
         return st.new_ref(ArrC(z3.Lambda([k], r.val), c.n, None if r.nan is False else z3.Lambda([k], r.nanz())), 'unary')
 
     def compare(self, op, a, b, st):
+        hk = self.c.calls.get('__compare__')
+        if hk is not None:
+            r = hk(self, st, [op, a, b], {}, None)
+            if r is not NotImplemented:
+                return r
         if isinstance(op, (ast.Is, ast.IsNot)):
             r = self.is_(a, b)
             return r if isinstance(op, ast.Is) else znot(r)
